@@ -1,7 +1,7 @@
 (* C12 — the exported statements, over the boolean hypotheses that Extract.v evaluates. *)
 From Coq Require Import List ZArith Bool Lia.
 From Verif Require Import C12.Model C12.Spec C12.Proofs_Lattice C12.Proofs_Steps C12.Proofs_Pass
-  C12.Proofs_Leveled C12.Proofs_Be C12.Proofs_Rec C12.Proofs_Hist.
+  C12.Proofs_Leveled C12.Proofs_Be C12.Proofs_Rec C12.Proofs_Hist C12.Reconcile C12.Proofs_Rc.
 Import ListNotations.
 Open Scope Z_scope.
 
@@ -166,3 +166,69 @@ Lemma ex_be_hyps :
   /\ snd (be_apply (mkEnv 1 [(0, 0); (1, 0); (2, 0)] [(1, 0); (2, 1)]) (mkSt [(0, 3); (1, 3); (2, 1)] []) [0; 1; 2] 3 12)
      = [(0, 15); (1, 15); (2, 15); (2, 12); (1, 12); (0, 12)].
 Proof. vm_compute. split; reflexivity. Qed.
+
+(* ---------- callers whose arrangement is their own ---------- *)
+Lemma hyps_ok_split e fs ls :
+  hyps_ok e fs ls = true <-> hyps_call e fs ls = true /\ topo_ok e (concat ls) = true.
+Proof. unfold hyps_ok, hyps_call. rewrite !andb_true_iff. tauto. Qed.
+
+(* cgroupResourcesReconcile: no hypothesis on the order, it is [rc_topo]; none on cpu.max, it is [rc_noq] *)
+Lemma main_reconcile_call ver sh rd st :
+  let e := rc_env ver sh in
+  let ls := rc_levels sh rd in
+  hyps_call e (sfs st) ls = true -> coherent (scache st) (sfs st) ->
+  let res := leveled_update e st ls in
+  prop_code e (sfs st) ls (snd res) (sfs (fst res)) = 0
+  /\ every_prefix_valid e (sfs st) (snd res)
+  /\ final_ok (sfs (fst res)) (concat ls)
+  /\ no_redundant e (sfs st) (concat ls) (snd res)
+  /\ validb e (sfs (fst res)) = true
+  /\ coherent (scache (fst res)) (sfs (fst res)).
+Proof.
+  intros e ls Hh Hc res.
+  assert (Hok : hyps_ok e (sfs st) ls = true) by (apply hyps_ok_split; split; [exact Hh|apply rc_topo]).
+  assert (Hq : forall u, In u (concat ls) -> on_q e (ukey u) = false) by (intros u _; apply rc_noq).
+  split; [apply main_batch_code; assumption|].
+  split; [apply main_every_prefix_valid; assumption|].
+  split; [apply (main_final e st ls Hok Hc)|].
+  split; [apply main_no_redundant_write; assumption|].
+  split; apply (main_invariant e st ls Hok Hc).
+Qed.
+
+(* regression for the defect fixed by ce7ebc1 (the bottom-up pass walked a level forwards): parent and
+   child in ONE level, memory.min 10/8 -> 4/3; the forward pass writes the parent first *)
+Definition fw_env : env := mkEnv 1 [(0, 2); (1, 2)] [(1, 0)].
+Definition fw_st : state := mkSt [(0, 10); (1, 8)] [].
+Definition fw_levels : list (list updater) := [[mkU 0 4; mkU 1 3]].
+
+Lemma level_forward_refuted :
+  hyps_ok fw_env (sfs fw_st) fw_levels = true /\ coherent (scache fw_st) (sfs fw_st)
+  /\ levels_ok fw_env fw_levels = false
+  /\ snd (leveled_update_fwd fw_env fw_st fw_levels) = [(0, 4); (1, 3)]
+  /\ ~ every_prefix_valid fw_env (sfs fw_st) (snd (leveled_update_fwd fw_env fw_st fw_levels))
+  /\ snd (leveled_update fw_env fw_st fw_levels) = [(1, 3); (0, 4)].
+Proof.
+  split; [vm_compute; reflexivity|]. split; [apply coherent_nil|]. split; [vm_compute; reflexivity|].
+  split; [vm_compute; reflexivity|]. split; [|vm_compute; reflexivity].
+  intros Hn. apply (prefixes_validb_spec fw_env _ (sfs fw_st)) in Hn; [|vm_compute; reflexivity].
+  vm_compute in Hn. discriminate.
+Qed.
+
+(* the same through the modelled caller: one burstable pod with one container, MinLimitPercent 100 for
+   the LS class, request 10 -> 4. The batch is [[kubepods; burstable]; [pod]; [container]]; the
+   forward pass tightened kubepods while burstable still held 10 *)
+Definition rcx_sh : shape := [(2, 1%nat)].
+Definition rcx_rd : rround := mkRRound 1073741824 [-1; -1; -1; 100; -1; -1; -1; -1; -1] [mkRPod true [(4, -1)]].
+Definition rcx_fs : fmap := [(0, 10); (1, 0); (2, -1); (3, 10); (4, 0); (5, -1); (6, 0); (7, 0); (8, -1);
+                             (9, 10); (10, 0); (11, -1); (12, 10); (13, 0); (14, -1)].
+
+Lemma ex_reconcile :
+  rc_levels rcx_sh rcx_rd = [[mkU 0 4; mkU 3 4]; [mkU 9 4]; [mkU 12 4]]
+  /\ hyps_call (rc_env 1 rcx_sh) rcx_fs (rc_levels rcx_sh rcx_rd) = true
+  /\ levels_ok (rc_env 1 rcx_sh) (rc_levels rcx_sh rcx_rd) = false
+  /\ snd (leveled_update (rc_env 1 rcx_sh) (mkSt rcx_fs []) (rc_levels rcx_sh rcx_rd))
+     = [(12, 4); (9, 4); (3, 4); (0, 4)]
+  /\ snd (leveled_update_fwd (rc_env 1 rcx_sh) (mkSt rcx_fs []) (rc_levels rcx_sh rcx_rd))
+     = [(12, 4); (9, 4); (0, 4); (3, 4)]
+  /\ validb (rc_env 1 rcx_sh) (apply_writes (rc_env 1 rcx_sh) [(12, 4); (9, 4); (0, 4)] rcx_fs) = false.
+Proof. vm_compute. repeat split. Qed.
